@@ -135,12 +135,14 @@ func (s *Sleeper) AddWaker(w *Waker, id int) {
 	// Try to associate the waker with the sleeper. If it's already
 	// asserted, we simply enqueue it in the "ready" list.
 	for {
+		verifPoint(verifAddLoad)
 		p := (*Sleeper)(atomic.LoadPointer(&w.s))
 		if p == &assertedSleeper {
 			s.enqueueAssertedWaker(w)
 			return
 		}
 
+		verifPoint(verifAddCAS)
 		if atomic.CompareAndSwapPointer(&w.s, usleeper(p), usleeper(s)) {
 			return
 		}
@@ -152,7 +154,7 @@ func (s *Sleeper) AddWaker(w *Waker, id int) {
 func (s *Sleeper) nextWaker(block bool) *Waker {
 	// Attempt to replenish the local list if it's currently empty.
 	if s.localList == nil {
-		for atomic.LoadPointer(&s.sharedList) == nil {
+		for verifPoint(verifNextLoad) && atomic.LoadPointer(&s.sharedList) == nil {
 			// Fail request if caller requested that we
 			// don't block.
 			if !block {
@@ -163,12 +165,14 @@ func (s *Sleeper) nextWaker(block bool) *Waker {
 			// this allows them to abort the wait by setting
 			// waitingG back to zero (which we'll notice
 			// before committing the sleep).
+			verifPoint(verifNextPrepare)
 			atomic.StoreUintptr(&s.waitingG, preparingG)
 
 			// Check if something was queued while we were
 			// preparing to sleep. We need this interleaving
 			// to avoid missing wake ups.
-			if atomic.LoadPointer(&s.sharedList) != nil {
+			if verifPoint(verifNextRecheck) && atomic.LoadPointer(&s.sharedList) != nil {
+				verifPoint(verifNextAbort)
 				atomic.StoreUintptr(&s.waitingG, 0)
 				break
 			}
@@ -180,12 +184,14 @@ func (s *Sleeper) nextWaker(block bool) *Waker {
 			// commitSleep to decide whether to immediately
 			// wake the caller up or to leave it sleeping.
 			const traceEvGoBlockSelect = 24
+			verifPoint(verifNextPark)
 			gopark(commitSleep, &s.waitingG, "sleeper", traceEvGoBlockSelect, 0)
 		}
 
 		// Pull the shared list out and reverse it in the local
 		// list. Given that wakers push themselves in reverse
 		// order, we fix things here.
+		verifPoint(verifNextSwap)
 		v := (*Waker)(atomic.SwapPointer(&s.sharedList, nil))
 		for v != nil {
 			cur := v
@@ -222,6 +228,7 @@ func (s *Sleeper) Fetch(block bool) (id int, ok bool) {
 
 		// Reassociate the waker with the sleeper. If the waker was
 		// still asserted we can return it, otherwise try the next one.
+		verifPoint(verifFetchSwap)
 		old := (*Sleeper)(atomic.SwapPointer(&w.s, usleeper(s)))
 		if old == &assertedSleeper {
 			return w.id, true
@@ -244,6 +251,7 @@ func (s *Sleeper) Done() {
 	for w != nil {
 		next := w.allWakersNext
 		for {
+			verifPoint(verifDoneLoad)
 			t := atomic.LoadPointer(&w.s)
 			if t != usleeper(s) {
 				w.allWakersNext = pending
@@ -251,6 +259,7 @@ func (s *Sleeper) Done() {
 				break
 			}
 
+			verifPoint(verifDoneCAS)
 			if atomic.CompareAndSwapPointer(&w.s, t, nil) {
 				break
 			}
@@ -286,8 +295,10 @@ func (s *Sleeper) Done() {
 func (s *Sleeper) enqueueAssertedWaker(w *Waker) {
 	// Add the new waker to the front of the list.
 	for {
+		verifPoint(verifEnqLoad)
 		v := (*Waker)(atomic.LoadPointer(&s.sharedList))
 		w.next = v
+		verifPoint(verifEnqCAS)
 		if atomic.CompareAndSwapPointer(&s.sharedList, uwaker(v), uwaker(w)) {
 			break
 		}
@@ -295,12 +306,14 @@ func (s *Sleeper) enqueueAssertedWaker(w *Waker) {
 
 	for {
 		// Nothing to do if there isn't a G waiting.
+		verifPoint(verifWakeLoad)
 		g := atomic.LoadUintptr(&s.waitingG)
 		if g == 0 {
 			return
 		}
 
 		// Signal to the sleeper that a waker has been asserted.
+		verifPoint(verifWakeCAS)
 		if atomic.CompareAndSwapUintptr(&s.waitingG, g, 0) {
 			if g != preparingG {
 				// We managed to get a G. Wake it up.
@@ -350,11 +363,12 @@ func (w *Waker) Assert() {
 	// Nothing to do if the waker is already asserted. This check allows us
 	// to complete this case (already asserted) without any interlocked
 	// operations on x86.
-	if atomic.LoadPointer(&w.s) == usleeper(&assertedSleeper) {
+	if verifPoint(verifAssertLoad) && atomic.LoadPointer(&w.s) == usleeper(&assertedSleeper) {
 		return
 	}
 
 	// Mark the waker as asserted, and wake up a sleeper if there is one.
+	verifPoint(verifAssertSwap)
 	switch s := (*Sleeper)(atomic.SwapPointer(&w.s, usleeper(&assertedSleeper))); s {
 	case nil:
 	case &assertedSleeper:
@@ -373,12 +387,13 @@ func (w *Waker) Clear() bool {
 	// Nothing to do if the waker is not asserted. This check allows us to
 	// complete this case (already not asserted) without any interlocked
 	// operations on x86.
-	if atomic.LoadPointer(&w.s) != usleeper(&assertedSleeper) {
+	if verifPoint(verifClearLoad) && atomic.LoadPointer(&w.s) != usleeper(&assertedSleeper) {
 		return false
 	}
 
 	// Try to store nil in the sleeper, which indicates that the waker is
 	// not asserted.
+	verifPoint(verifClearCAS)
 	return atomic.CompareAndSwapPointer(&w.s, usleeper(&assertedSleeper), nil)
 }
 
